@@ -33,8 +33,12 @@ CLAIM = ('Proved in Coq for the model, Numbers naming, direct mode, EVERY histor
          'on it after any pause - own criterion, capacity, append flag - succeeds in every operation and ends with acknowledged '
          '++ own records, no name used twice, also within the second of the kill (C11_timestampsdirect_kill_restart); Timestamps '
          'with rCURRENT likewise, including the kill between the rename and the creation of the new rCURRENT, which leaves no '
-         'rCURRENT at all (C11_timestamps_kill_keeps_acked, C11_timestamps_kill_restart). ')
-THEOREMS = ["C11_numbers_kill_keeps_acked", "C11_numbers_kill_restart", "C11_dead_no_effect", "C11_kill_point", "C11_alive_effect", "C11_numbersdirect_kill_keeps_acked", "C11_numbersdirect_kill_restart", "C11_numbers_cleanup_kill_keeps_acked", "C11_numbers_cleanup_kill_restart", "C11_timestampsdirect_kill_keeps_acked", "C11_timestampsdirect_kill_shape", "C11_timestampsdirect_kill_restart", "C11_timestamps_kill_keeps_acked", "C11_timestamps_kill_restart"]
+         'rCURRENT at all (C11_timestamps_kill_keeps_acked, C11_timestamps_kill_restart). NumbersDirect with a cleanup strategy: '
+         'C11_numbersdirect_cleanup_kill_keeps_acked (every kill point incl. those inside the cleanup: a tail of the '
+         'acknowledged records containing everything a finished cleanup would keep; the file being written is plain, never an '
+         'archive, never removed); the restart after such a kill is checked by enumeration of all kill points of small histories '
+         'in Coq (Flw/NumDCleanupKillEx.v), not by a general theorem. ')
+THEOREMS = ["C11_numbers_kill_keeps_acked", "C11_numbers_kill_restart", "C11_dead_no_effect", "C11_kill_point", "C11_alive_effect", "C11_numbersdirect_kill_keeps_acked", "C11_numbersdirect_kill_restart", "C11_numbers_cleanup_kill_keeps_acked", "C11_numbers_cleanup_kill_restart", "C11_timestampsdirect_kill_keeps_acked", "C11_timestampsdirect_kill_shape", "C11_timestampsdirect_kill_restart", "C11_timestamps_kill_keeps_acked", "C11_timestamps_kill_restart", "C11_numbersdirect_cleanup_kill_keeps_acked"]
 TRUSTED = ["assumed: atomicity of single file-system calls under SIGABRT, no loss of written data in the page cache; the kill happens at "
            "the hook point immediately before a call, never inside one"]
 ASSUMPTIONS = ["the virtual clock does not advance within a crash history (file birth times are not carried over to the restarted process)"]
